@@ -78,6 +78,7 @@ type Exec struct {
 	embCodes       map[string]int
 	given          map[string]Val
 	curFn          *ssa.Function
+	tier           string
 	pdoms          map[*ssa.Function]*pdomInfo
 	noMerge        bool
 	merges         int
@@ -1760,6 +1761,10 @@ func (x *Exec) instrModsLoop(st *State, fr *Frame, in ssa.Instruction, ms *modse
 					continue
 				case elemsLoc:
 					*precise = append(*precise, func() { st.havocElems(l.arr, l.elem) })
+					continue
+				case streamLoc:
+					envc, cc2 := env, c
+					*precise = append(*precise, func() { x.havocLoc(st, envc, loc, cc2) })
 					continue
 				}
 			}
